@@ -23,7 +23,9 @@ pub fn patterns_of(category: &str) -> &'static [&'static str] {
     }
 }
 
-const NAME_PARTS: [&str; 38] = [
+const NAME_PARTS: [&str; 50] = [
+    // path-like parts: findings maps are keyed by arbitrary strings, a report prints them as they are
+    "src/", "src//", "/./", "/", "./", "../", "lib/sub/", "\\", "C:\\", "//", "/.", "~/",
     "{line}", "{file}", "{}", "{0}", "%s", "$1", "\\1", "\u{202E}", "\u{2066}", "\u{2069}", "\u{200B}", "\u{FEFF}",
     "a-name-part-of-sixty-characters-to-build-very-long-file-names",
     "a-name-part-of-one-hundred-and-twenty-characters-to-build-file-names-that-are-as-long-as-file-systems-allow-them-to-be-ok",
@@ -49,8 +51,18 @@ pub fn gen_entries(rng: &Rng, max_files: usize) -> Entries {
         if !v.is_empty() && rng.chance(1, 8) {
             // a name that differs from an earlier one only in letter case (or not at all), with the same or another line set
             let (n0, l0) = v[rng.below(v.len())].clone();
-            let name = match rng.below(4) {
+            let name = match rng.below(7) {
                 0 => n0.clone(),
+                // names that a path comparison takes for the same path: a trailing separator, a doubled separator, a `.` component
+                4 => format!("{}/", n0),
+                5 => match n0.find('/') {
+                    Some(i) => format!("{}/{}", &n0[..i], &n0[i..]),
+                    None => format!("{}/.", n0),
+                },
+                6 => match n0.find('/') {
+                    Some(i) => format!("{}/.{}", &n0[..i], &n0[i..]),
+                    None => format!("./{}", n0),
+                },
                 3 => {
                     // a numeric variant: a zero inserted before the first digit run, or "1" appended ("Vault1" / "Vault01")
                     match n0.find(|c: char| c.is_ascii_digit()) {
